@@ -413,7 +413,9 @@ func c01Run(t *testing.T, s Scenario, src verifsim.DecisionSource, keep bool) *R
 	return res
 }
 
-var longLineWarning = regexp.MustCompile(`(?m)^(CLIENT|SERVER)\|[^|\n]*\|WARN\|[^\n]*Long log line, splitting into multiple lines\n`)
+// The warning record can land anywhere relative to the content (it travels on
+// its own channel), also directly behind an unterminated last line.
+var longLineWarning = regexp.MustCompile(`(CLIENT|SERVER)\|[^|\n]*\|WARN\|[^\n]*Long log line, splitting into multiple lines\n`)
 
 func diffMsg(exp, got []byte) string {
 	i := 0
